@@ -25,6 +25,7 @@
  */
 #define OPENSSL_SUPPRESS_DEPRECATED
 #include "common.h"
+#include "guard.h"
 #include <stddef.h>
 #include <openssl/sha.h>
 #include "mh_sha1.h"
@@ -259,6 +260,8 @@ int main(int argc, char **argv)
         fo = fopen(argv[6], "w");
         fr = fopen(argv[7], "w");
         if (!fo || !fr) { perror("open"); return 2; }
+        guard_setup();
+        guard_out = fr;
 
         rng_t r;
         rng_seed(&r, seed);
@@ -317,7 +320,14 @@ int main(int argc, char **argv)
                         xs_bytes(dseed, data, len);
                         memcpy(copy, data, len);
                         fprintf(fo, "U %u %llu\n", len, (unsigned long long) dseed);
-                        if (((update_fn) F->update)(ctx, data, len)) monitor("rc update");
+                        if (guard_mode) {       /* C08: the update's bytes end (mode 1) / begin (mode 2) at an unmapped page */
+                                uint8_t *gb = guard_alloc_al(len ? len : 1, 0);
+                                memcpy(gb, data, len);
+                                guard_op = "update";
+                                guard_opno = ops;
+                                if (((update_fn) F->update)(ctx, gb, len)) monitor("rc update");
+                                guard_free(gb);
+                        } else if (((update_fn) F->update)(ctx, data, len)) monitor("rc update");
                         if (memcmp(copy, data, len)) monitor("caller buffer modified");
                         if (sd) arena_release();
                         tot += len;
